@@ -98,6 +98,9 @@ class C13(Engine):
         import xonsh.history.sqlite as hs
 
         faultfs.install(hj)
+        import xonsh.lib.lazyjson as xlj
+
+        faultfs.install(xlj)  # LazyJSON opens the history files itself: those reads are call sites too
         self.hj, self.hs = hj, hs
 
     # ------------------------------------------------------------------ generation
